@@ -254,6 +254,9 @@ func randKey(rng *rand.Rand) []int {
 		return []int{0xc3, 0xa9, 0x20, 0x22}
 	}
 	n := 1 + rng.Intn(12)
+	if rng.Intn(8) == 0 { // names around the sizes of scratch buffers and length bytes
+		n = []int{31, 32, 33, 61, 62, 63, 64, 65, 66, 127, 128, 129, 255, 256, 257, 300}[rng.Intn(16)]
+	}
 	k := make([]byte, n)
 	for i := range k {
 		k[i] = byte('a' + rng.Intn(26))
@@ -616,7 +619,8 @@ func projectIface(v any) string { b, _ := json.Marshal(projectAny(v)); return st
 // random type expressions / values ------------------------------------------------------------------
 
 var goScalarNames = []string{"bool", "i8", "u8", "i16", "u16", "i32", "u32", "i64", "u64", "f32", "f64", "str"}
-var goFieldNames = [][]int{ints([]byte("a")), ints([]byte("B c")), {0xc3, 0xa9}, ints([]byte("Value")), ints([]byte("x1")), ints([]byte("list")), ints([]byte("omitempty"))}
+var goFieldNames = [][]int{ints([]byte("a")), ints([]byte("B c")), {0xc3, 0xa9}, ints([]byte("Value")), ints([]byte("x1")), ints([]byte("list")), ints([]byte("omitempty")),
+	ints(bytes.Repeat([]byte("n"), 62)), ints(bytes.Repeat([]byte("m"), 63)), ints(bytes.Repeat([]byte("k"), 64)), ints(bytes.Repeat([]byte("j"), 65)), ints(bytes.Repeat([]byte("i"), 128)), ints(bytes.Repeat([]byte("h"), 256))}
 
 func randGoType(rng *rand.Rand, depth int) *goType {
 	r := rng.Intn(12)
